@@ -3,7 +3,9 @@
 Extracted (python `ast` only, mypy is never imported; fail-closed: anything not recognised raises):
 
 * build.write_cache: the store operations it performs, in source order (removes of the old meta /
-  meta_ex, the data write) and its reaction to a failed data write (`return interface_hash, None`);
+  meta_ex, the data write), its reaction to a failed data write (`return interface_hash, None`) and to a
+  remove raising an OSError other than FileNotFoundError (return None / propagate: nothing more is written);
+* build.process_graph: `if manager.workers: manager.commit()` before the workers start;
 * build.write_cache_meta / write_cache_meta_ex: exactly one store write each (meta / meta_ex);
 * build.process_stale_scc, process_stale_scc_interface, process_stale_scc_implementation: for every
   `for id in stale` loop, the ordered store operations of its body (State.write_cache() is inlined),
@@ -128,6 +130,39 @@ def direct_store_ops(fn: ast.FunctionDef, skip_if_tests: tuple[str, ...] = ()) -
     return out
 
 
+def remove_reaction(ops: list[tuple[str, ast.Call, list[ast.AST]]]) -> bool:
+    """Does a failing remove (an OSError that is not FileNotFoundError) stop all further cache writes of the module?
+
+    True when there are no removes, when the exception propagates (the run dies: a crash position), or when the
+    handler returns `<hash>, None`; False when a handler swallows it and carries on."""
+    for o, call, anc in ops:
+        if o not in ("PRmMeta", "PRmEx"):
+            continue
+        tries = [a for a in anc if isinstance(a, ast.Try) and any(x is call for b in a.body for x in ast.walk(b))]
+        for t in tries:
+            for h in t.handlers:
+                names = [] if h.type is None else [ast.unparse(e) for e in (h.type.elts if isinstance(h.type, ast.Tuple) else [h.type])]
+                if names == ["FileNotFoundError"]:
+                    if not all(isinstance(b, ast.Pass) for b in h.body):
+                        raise Unsupported(f"line {h.lineno}: FileNotFoundError handler of a remove does more than pass")
+                    continue
+                last = h.body[-1]
+                returns_none = (isinstance(last, ast.Return) and isinstance(last.value, ast.Tuple) and len(last.value.elts) == 2
+                                and isinstance(last.value.elts[1], ast.Constant) and last.value.elts[1].value is None)
+                reraises = isinstance(last, ast.Raise)
+                if not (returns_none or reraises):
+                    return False
+    return True
+
+
+def coord_commit(funcs: dict[str, ast.FunctionDef]) -> bool:
+    fn = _need(funcs, "process_graph")
+    for s in fn.body:
+        if isinstance(s, ast.If) and ast.unparse(s.test) == "manager.workers":
+            return any(isinstance(c.func, ast.Attribute) and c.func.attr == "commit" for c in _calls_in_order(s))
+    return False
+
+
 def write_cache_ops(funcs: dict[str, ast.FunctionDef]) -> tuple[list[str], bool]:
     fn = _need(funcs, "write_cache")
     ops = direct_store_ops(fn, skip_if_tests=("st is None",))
@@ -144,7 +179,12 @@ def write_cache_ops(funcs: dict[str, ast.FunctionDef]) -> tuple[list[str], bool]
                     and isinstance(last.value.elts[1], ast.Constant) and last.value.elts[1].value is None):
                 drops = True
             break
+    global _RM_DROPS
+    _RM_DROPS = remove_reaction(ops)
     return names, drops
+
+
+_RM_DROPS = True
 
 
 def single_write(funcs: dict[str, ast.FunctionDef], name: str, expect: str) -> None:
@@ -302,7 +342,8 @@ def extract() -> dict[str, object]:
     impl, _ = loop_templates(_need(funcs, "process_stale_scc_implementation"), wc)
     ic, mc = worker_commits(wtree)
     return {"write_cache": wc, "seq": seq, "iface": iface, "impl": impl,
-            "data_fail_drops": drops and sk1 and sk2, "worker_iface_commit": ic, "worker_impl_commit": mc,
+            "data_fail_drops": drops and sk1 and sk2, "rm_fail_drops": _RM_DROPS and sk1 and sk2,
+            "coord_commit": coord_commit(funcs), "worker_iface_commit": ic, "worker_impl_commit": mc,
             "final_commit": final_commit(funcs)}
 
 
@@ -321,6 +362,8 @@ Definition current_protocol : protocol :=
      p_iface := {loops(p['iface'])};
      p_impl := {loops(p['impl'])};
      p_data_fail_drops := {coq_bool(p['data_fail_drops'])};
+     p_rm_fail_drops := {coq_bool(p['rm_fail_drops'])};
+     p_coord_commit := {coq_bool(p['coord_commit'])};
      p_worker_iface_commit := {coq_bool(p['worker_iface_commit'])};
      p_worker_impl_commit := {coq_bool(p['worker_impl_commit'])};
      p_final_commit := {coq_bool(p['final_commit'])} |}}.
